@@ -659,6 +659,7 @@ fn violates(file: &[u8], ops: &[Corrupt], queries: &[Query], class: &str) -> Opt
 }
 
 pub fn minimise(v: &Violation) -> Violation {
+    start_minimise_clock(40);
     let Some(file) = bytes_from_json(&v.case["file"]) else { return v.clone() };
     let ops: Vec<Corrupt> = v.case["ops"].as_array().map(|a| a.iter().filter_map(Corrupt::from_json).collect()).unwrap_or_default();
     let Some(q) = v.case.get("query").and_then(Query::from_json) else {
